@@ -420,3 +420,60 @@ func VerifC06Seq() {
 		vrt.Assert(c06Inv(s), "seq/invariant")
 	}
 }
+
+type c06BizTx struct {
+	fail      bool
+	committed bool
+	rolled    bool
+}
+
+func (t *c06BizTx) Commit() error {
+	if t.fail {
+		return errors.New("business commit failed")
+	}
+	t.committed = true
+	return nil
+}
+func (t *c06BizTx) Rollback() error { t.rolled = true; return nil }
+
+// VerifC06Tx: the transaction pair of the fence driver (FenceTx): the fence record of
+// an admitted try becomes durable exactly when the business transaction's commit
+// succeeded; a failed business commit is reported and leaves no fence record behind.
+func VerifC06Tx() {
+	db, sqlDB := c06NewDB()
+	ctx := tm.InitSeataContext(context.Background())
+	tm.SetBusinessActionContext(ctx, &tm.BusinessActionContext{Xid: db.xid, BranchId: db.branch, ActionName: "action"})
+	tm.SetFencePhase(ctx, enum.FencePhasePrepare)
+	fenceTx, berr := sqlDB.BeginTx(ctx, &sql.TxOptions{})
+	vrt.Assert(berr == nil, "tx/fence-begin-ok")
+	if berr != nil {
+		return
+	}
+	werr := WithFence(ctx, fenceTx, func() error { db.work.try++; return nil })
+	vrt.Assert(werr == nil, "tx/try-admitted")
+	if werr != nil {
+		return
+	}
+	biz := &c06BizTx{fail: vrt.Bool("business.commit.fails")}
+	end := vrt.Choice("end", 2) // 0 commit, 1 rollback
+	ftx := &FenceTx{Ctx: ctx, TargetTx: biz, TargetFenceTx: fenceTx}
+	var err error
+	if end == 0 {
+		err = ftx.Commit()
+	} else {
+		err = ftx.Rollback()
+	}
+	vrt.Reach("tx/end")
+	if end == 1 {
+		vrt.Assert(biz.rolled && !db.committed.present && db.committed.try == 0, "tx/rollback-ends-both-without-a-record")
+		return
+	}
+	if biz.fail {
+		vrt.Reach("tx/business-commit-failed")
+		vrt.Assert(err != nil, "tx/business-commit-failure-is-reported")
+		vrt.Assert(!db.committed.present && db.committed.try == 0, "tx/no-fence-record-without-the-business-commit")
+		return
+	}
+	vrt.Assert(err == nil && biz.committed, "tx/commit-ok")
+	vrt.Assert(db.committed.present && db.committed.status == byte(enum.StatusTried) && db.committed.try == 1, "tx/fence-record-durable-with-the-business-commit")
+}
